@@ -48,6 +48,7 @@ var Ctl *Control
 
 var errFrozen = syscall.EIO
 
+//go:norace
 func (c *Control) tracked(path string) bool {
 	for _, r := range c.Roots {
 		if strings.HasPrefix(path, r) {
@@ -57,6 +58,7 @@ func (c *Control) tracked(path string) bool {
 	return false
 }
 
+//go:norace
 func (c *Control) logf(op, path string, extra string) {
 	c.Ops++
 	if len(c.Log) < c.LogCap {
@@ -74,6 +76,8 @@ func frozen(op, path string) error { return &os.PathError{Op: op, Path: path, Er
 
 // pre is called at the start of every simulated call. It returns
 // (simulate, err): err != nil means the call must fail without touching anything.
+//
+//go:norace
 func pre(op, path string, mutating bool) (*Control, error) {
 	if dead() {
 		return nil, frozen(op, path)
@@ -112,6 +116,8 @@ func pre(op, path string, mutating bool) (*Control, error) {
 }
 
 // tornPoint is the second crash point of a data write: a prefix reaches the file.
+//
+//go:norace
 func (c *Control) tornPoint(op, path string, n int) (prefix int, crash bool) {
 	if n <= 1 {
 		return 0, false
